@@ -19,4 +19,4 @@ require (
 	golang.org/x/sys v0.24.0 // indirect
 )
 
-replace github.com/inspirer/textmapper => /tmp/mutrepo-mut7431
+replace github.com/inspirer/textmapper => /tmp/mutrepo-mut28909
